@@ -187,12 +187,7 @@ func (i UInt16) ExponentiateUInt16(other UInt16) UInt16 {
 	if other <= 0 {
 		return 1
 	}
-	result := i
-	var j UInt16
-	for j = 2; j <= other; j++ {
-		result *= i
-	}
-	return result
+	return StrictIntExponentiate(i, other)
 }
 
 func (i UInt16) Subtract(other Value) (UInt16, Value) {
